@@ -100,6 +100,8 @@ def C07(tier):
         Job('jc.bits', 'A', src='harness/C07_bits.c', cbmc=['--unwind', '65'], bounds=dict(n_threads='all values in [0, 2^62)', unwind=65), timeout=900),
         ajob('jc.release_step.n%d' % (64 if tier == 'quick' else 256), 'harness/C06_wake_step.c', ['-DNMAX=%d' % (64 if tier == 'quick' else 256), '-DKIND=1'], unwind=(64 if tier == 'quick' else 256) + 4, timeout=7200, mem_gb=16, extra=['--object-bits', '12', '--max-field-sensitivity-array-size', '2000'],
              replace_calls=['myth_sleep_queue_deq:stub_deq', 'myth_queue_push:stub_push'], bounds=dict(waiters='every n in [0,%d]' % (64 if tier == 'quick' else 256), step='one call of myth_wake_many_from_queue')),
+        ajob('jc.release_order.n1100', 'harness/C06_wake_step.c', ['-DNMAX=1100', '-DKIND=1', '-DALIAS=1'], unwind=1104, timeout=7200, mem_gb=40, extra=['--object-bits', '12'],
+             replace_calls=['myth_sleep_queue_deq:stub_deq', 'myth_queue_push:stub_push'], bounds=dict(waiters='every n in [0,1100]', step='one call of myth_wake_many_from_queue; order of collection and publication only (all waiters are one aliased descriptor; identity is decided by jc.release_step)')),
         ajob('jc.step', 'harness/C07_step.c', [], unwind=34, timeout=900, replace_calls=['myth_wake_many_from_queue:stub_wake_many', 'myth_block_on_queue:stub_block'],
              bounds=dict(n_threads='every N in [1, 2^31)', waiters='every count in [0, 2^30)', step='one dec or one wait from an arbitrary packed state')),
     ]
